@@ -30,7 +30,7 @@ def check_case(ctx, case):
         ctx.reject(type(e).__name__)
         return
     n = case['n']
-    seed = case['seed']
+    seed = case['seed'] if case.get('seed_type', 'int') == 'int' else getattr(np, case['seed_type'])(case['seed'])
     scores = {}
     try:
         with quiet():
@@ -65,7 +65,7 @@ def check_case(ctx, case):
     if (~est).any():
         ctx.count('with_unestimable_points')
     ctx.case(signature=(tuple(idx.tolist()), tuple(est.tolist()), kw['model']) if est.sum() >= 2 else None,
-             stream='jackknife', sample=dict(n_points=len(coords), n=n, seed=seed, estimable=int(est.sum()),
+             stream='jackknife', sample=dict(n_points=len(coords), n=n, seed=int(seed), estimable=int(est.sum()),
                                             scores=scores))
     if not est.any():
         return
@@ -154,11 +154,14 @@ def gen(ctx):
     kw = dict(model=model, n_lags=int(rng.integers(4, 9)), maxlag=str(rng.choice(['median', 'mean'])) if rng.random() < 0.7 else None,
               use_nugget=bool(rng.random() < 0.4), dist_func=str(rng.choice(['euclidean', 'euclidean', 'cityblock'])))
     sub = None if rng.random() < 0.6 else int(rng.integers(max(3, len(coords) - 4), len(coords)))
-    return dict(coords=coords.tolist(), values=values.tolist(), kw=kw, n=sub, seed=int(rng.integers(0, 10 ** 6)))
+    # seeds: 0 and NumPy integer scalars are seeds like any other
+    seed = int(rng.choice([0, 0, 1, int(rng.integers(2, 10 ** 6))]))
+    return dict(coords=coords.tolist(), values=values.tolist(), kw=kw, n=sub, seed=seed,
+                seed_type=str(rng.choice(['int', 'int', 'int64', 'uint32'])))
 
 
 def run(ctx):
-    for k in range(ctx.n(22, 200)):
+    for k in range(ctx.n(22, 400)):
         check_case(ctx, gen(ctx))
     ctx.lean.flush()
 
